@@ -43,18 +43,20 @@ type Cfg struct {
 	Depth     int    `json:"depth"`
 	Forward   bool   `json:"forward"`
 	Fwdmd     bool   `json:"fwdmd"`
+	Hname     string `json:"hname"` // spelling of the name given to RequestIDHeaderOption
 }
 type Op struct {
 	Op string `json:"op"`
 	V  int    `json:"v"`
 }
 type Req struct {
-	RidAt  string `json:"ridAt"`
-	RidLen int    `json:"ridLen"`
-	Trace  bool   `json:"trace"`
-	Parent bool   `json:"parent"`
-	Dpath  bool   `json:"dpath"`
-	Script []Op   `json:"script"`
+	RidAt    string `json:"ridAt"`
+	RidLen   int    `json:"ridLen"`
+	RidSpell string `json:"ridSpell"` // spelling of the header name used by the sender
+	Trace    bool   `json:"trace"`
+	Parent   bool   `json:"parent"`
+	Dpath    bool   `json:"dpath"`
+	Script   []Op   `json:"script"`
 }
 
 // ---- observations (field names = record fields of the specification) -------------------------
@@ -110,7 +112,7 @@ type Event struct {
 
 const (
 	stdHeader    = "X-Request-Id"
-	customHeader = "Custom-Id"
+	customHeader = "X-Correlation-Id"
 	inboundTrace = "T0"
 	inboundSpan  = "P0"
 	inboundChars = "#$%&()*+:;<=>?@[]^{|}~!#$%&()*+:;<=>?@[]^{|}~!" // none of them occurs in a generated id
@@ -195,6 +197,22 @@ func hdrTok(s string) string {
 	return s
 }
 
+// spell returns a header name in one of the spellings of the specification (same name, case differs).
+func spell(canon, how string) string {
+	switch how {
+	case "", "canon":
+		return canon
+	case "lower":
+		return strings.ToLower(canon)
+	case "mixed":
+		return strings.TrimSuffix(canon, "Id") + "ID"
+	}
+	vio.Die("unknown spelling %q", how)
+	return ""
+}
+
+func (r *run) customName() string { return spell(customHeader, r.cfg.Hname) }
+
 func (r *run) ridOptions() []middleware.RequestIDOption {
 	var o []middleware.RequestIDOption
 	switch r.cfg.Trust {
@@ -204,11 +222,11 @@ func (r *run) ridOptions() []middleware.RequestIDOption {
 	case "off":
 		o = append(o, middleware.UseRequestIDOption(false))
 	case "custom":
-		o = append(o, middleware.RequestIDHeaderOption(customHeader))
+		o = append(o, middleware.RequestIDHeaderOption(r.customName()))
 	case "on_custom":
-		o = append(o, middleware.UseRequestIDOption(true), middleware.RequestIDHeaderOption(customHeader))
+		o = append(o, middleware.UseRequestIDOption(true), middleware.RequestIDHeaderOption(r.customName()))
 	case "custom_off":
-		o = append(o, middleware.RequestIDHeaderOption(customHeader), middleware.UseRequestIDOption(false))
+		o = append(o, middleware.RequestIDHeaderOption(r.customName()), middleware.UseRequestIDOption(false))
 	default:
 		vio.Die("unknown trust mode %q", r.cfg.Trust)
 	}
@@ -251,7 +269,7 @@ func (r *run) path(dp bool) string {
 }
 func (r *run) forwardHeader() string {
 	if r.cfg.Trust == "custom" || r.cfg.Trust == "on_custom" {
-		return customHeader
+		return r.customName()
 	}
 	return stdHeader
 }
@@ -578,10 +596,11 @@ func runCase(cfg Cfg, reqs []Req) (r *run) {
 		if cfg.Transport == "http" {
 			h := http.Header{}
 			switch rq.RidAt {
+			// like net/http does for a request read from the wire, Set stores the name in canonical form
 			case "std":
-				h[http.CanonicalHeaderKey(stdHeader)] = []string{v}
+				h.Set(spell(stdHeader, rq.RidSpell), v)
 			case "custom":
-				h[http.CanonicalHeaderKey(customHeader)] = []string{v}
+				h.Set(spell(customHeader, rq.RidSpell), v)
 			}
 			if rq.Trace {
 				h.Set(httpm.TraceIDHeader, inboundTrace)
@@ -593,10 +612,11 @@ func runCase(cfg Cfg, reqs []Req) (r *run) {
 		} else {
 			md := metadata.MD{}
 			switch rq.RidAt {
+			// grpc lower-cases metadata keys
 			case "std":
-				md.Set(grpcm.RequestIDMetadataKey, v)
+				md.Set(spell(stdHeader, rq.RidSpell), v)
 			case "custom":
-				md.Set(strings.ToLower(customHeader), v)
+				md.Set(spell(customHeader, rq.RidSpell), v)
 			}
 			if rq.Trace {
 				md.Set(grpcm.TraceIDMetadataKey, inboundTrace)
@@ -636,13 +656,19 @@ func randCase(rn *rand.Rand) (Cfg, []Req) {
 	c.Discards = rn.Intn(3)
 	c.Forward = c.Depth > 1 && rn.Intn(2) == 0
 	c.Fwdmd = c.Depth > 1 && rn.Intn(2) == 0
+	c.Hname = "canon"
+	if strings.Contains(c.Trust, "custom") {
+		c.Hname = []string{"canon", "lower", "mixed"}[rn.Intn(3)]
+	}
 	n := 1 + rn.Intn(5)
 	reqs := make([]Req, n)
 	for i := range reqs {
 		q := Req{RidAt: []string{"none", "std", "custom"}[rn.Intn(3)], Trace: rn.Intn(3) == 0, Parent: rn.Intn(3) == 0,
 			Dpath: rn.Intn(4) == 0, Script: []Op{}}
+		q.RidSpell = "canon"
 		if q.RidAt != "none" {
 			q.RidLen = rn.Intn(c.Limit + 3)
+			q.RidSpell = []string{"canon", "lower", "mixed"}[rn.Intn(3)]
 		}
 		if c.Transport == "http" {
 			for k := rn.Intn(6); k > 0; k-- {
